@@ -5,6 +5,7 @@ import (
 	"fmt"
 	"math/big"
 	"math/rand"
+	"os"
 	"reflect"
 	"runtime/debug"
 	"strings"
@@ -37,6 +38,11 @@ func init() {
 		Cases:         func(t string) int { return tierN(t, 480, 16000) },
 		MinNontrivial: func(t string) int { return tierN(t, 300, 10000) },
 		Run:           runC20,
+		Extra: func(tier string, seed int64, agg *fw.Aggregate) {
+			if tier == "thorough" || os.Getenv("VERIF_RACE") != "" {
+				racePass("C20", seed, agg)
+			}
+		},
 	})
 }
 
